@@ -127,7 +127,13 @@ class Must:
         out = []
         for d, vals, comp in self.raw_at(p):
             out.extend(self.normalise(d, vals, comp))
-        return self._expand_phi(out, _seen if _seen is not None else {p})
+        out = self._expand_phi(out, _seen if _seen is not None else {p})
+        extra = []
+        for a in out:
+            b = canon_okness(a)
+            if b is not None and b not in out and b not in extra:
+                extra.append(b)
+        return out + extra
 
     def _expand_phi(self, atoms, seen):
         """An atom about a value merged from several definitions (`phi`) that only ONE of the definitions can satisfy
@@ -182,6 +188,31 @@ class Must:
     def discr_names(self, term_op, vals):
         """Map discriminant values to variant names using type info where possible."""
         return None
+
+
+def canon_okness(a):
+    """ok/notok atoms seen through the std view adapters: `r.ok()` / `r.as_ref()` / `o.as_mut()` / `r.err()` keep (or
+    flip) the Ok/Some-ness of their receiver, so `ok(ok(as_ref(X)))` also says `ok(X)`."""
+    if a[0] not in ("ok", "notok"):
+        return None
+    k, t = a[0], a[1]
+    changed = False
+    for _ in range(6):
+        while t[0] in ("ref", "deref"):
+            t = t[1]
+        if t[0] == "call" and len(t[2]) == 1 and t[1] in ("ok", "as_ref", "as_mut", "as_deref", "as_deref_mut", "copied", "cloned"):
+            t = t[2][0]
+            changed = True
+            continue
+        if t[0] == "call" and len(t[2]) == 1 and t[1] == "err":
+            t = t[2][0]
+            k = "notok" if k == "ok" else "ok"
+            changed = True
+            continue
+        break
+    while t[0] in ("ref", "deref"):
+        t = t[1]
+    return (k, t) if changed else None
 
 
 def _alt_verdict(alt, atom):
